@@ -2706,10 +2706,12 @@ impl CommandParser {
         if frames.len() != 4 {
             return Err(FerrousError::Command(CommandError::WrongNumberOfArguments("ZCOUNT".into())));
         }
-        let min_score = Self::extract_string(&frames[2])?.parse::<f64>()
-            .map_err(|_| FerrousError::Command(CommandError::InvalidFloatValue))?;
-        let max_score = Self::extract_string(&frames[3])?.parse::<f64>()
-            .map_err(|_| FerrousError::Command(CommandError::InvalidFloatValue))?;
+        let min_score = Self::extract_string(&frames[2])?.parse::<f64>().ok()
+            .filter(|bound| !bound.is_nan())
+            .ok_or(FerrousError::Command(CommandError::InvalidFloatValue))?;
+        let max_score = Self::extract_string(&frames[3])?.parse::<f64>().ok()
+            .filter(|bound| !bound.is_nan())
+            .ok_or(FerrousError::Command(CommandError::InvalidFloatValue))?;
         Ok(SortedSetCommand::ZCount {
             key: Self::extract_bytes(&frames[1])?,
             min_score,
